@@ -320,16 +320,20 @@ impl Prop for SizeOfRead {
 impl RandomProp for SizeOfRead {
     fn strategy(_env: &Env) -> BoxedStrategy<ReadCase> {
         (crate::c03::file_model(4, 4, 6), proptest::collection::vec((any::<usize>(), 0i32..8), 0..3))
-            .prop_filter_map("typed file", |(mut m, patches)| {
+            .prop_map(|(mut m, patches)| {
                 if m.ty == Ty::Null {
-                    return None;
+                    // a null-typed file has no typed reading: use a fixed one-point file instead of rejecting the draw
+                    m = vlib::refcodec::FileModel::simple(
+                        Ty::Point,
+                        vec![Geom { ty: Ty::Point, parts: vec![Part { kind: 0, pts: vec![v4(1.5, -2.5, 0.0, 0.0)] }], bbox: [F(0); 8], m_present: false }.canon_file()],
+                    );
                 }
                 m.recs.retain(|r| r.geom.ty != Ty::Null);
                 m.trailing.clear();
-                Some(ReadCase {
+                ReadCase {
                     model: m,
                     patches: patches.into_iter().map(|(i, v)| (i % 4096, v)).collect(),
-                })
+                }
             })
             .boxed()
     }
